@@ -69,10 +69,10 @@ fn view_point(p: ViewParams) -> BoxedStrategy<[f32; 3]> {
         1 => Just(ulp_down(far)),
         16 => near..far,
         2 => (-big)..0.0f32,
-        2 => far..(far * 1.5f32).min(big).max(ulp_up(far)),
+        2 => far..(far * 1.5f32).max(far * 1.01),
         1 => Just(big),
         1 => Just(-big),
-        1 => (near * 1e-3)..near,
+        1 => (near * 1e-3)..(near * 0.999),
     ];
     let rel = || {
         prop_oneof![
@@ -96,7 +96,7 @@ fn view_point(p: ViewParams) -> BoxedStrategy<[f32; 3]> {
                 3 => y = 0.0,
                 _ => {}
             }
-            [x.clamp(-big, big), y.clamp(-big, big), z]
+            [x.clamp(-big, big), y.clamp(-big, big), z.clamp(-big, big)]
         })
         .boxed()
 }
